@@ -31,6 +31,7 @@ class StubDevice(Device):
         self._name = name
         self.interfaces: list[StubInterface] = []
         self.addr_log: list = []
+        self.lag_log: list = []
         self._storage = None
 
     def add_port(self, name, nb=None, nb_port=None):
@@ -82,14 +83,19 @@ class StubDevice(Device):
                 out.append(i.neighbor_fqdn)
         return out
 
+    # annet.storage.Device: "Add ... interface or return existing one" (as annet.adapters.netbox does)
+    def _add_or_reuse(self, name: str) -> Interface:
+        return self.find_interface(name) or self.add_port(name)
+
     def make_lag(self, lag: int, ports: Sequence[str], lag_min_links: Optional[int]) -> Interface:
-        return self.add_port(f"Trunk{lag}")
+        self.lag_log.append((f"Trunk{lag}", sorted(ports), lag_min_links))
+        return self._add_or_reuse(f"Trunk{lag}")
 
     def add_svi(self, svi: int) -> Interface:
-        return self.add_port(f"Vlan{svi}")
+        return self._add_or_reuse(f"Vlan{svi}")
 
     def add_subif(self, interface: str, subif: int) -> Interface:
-        return self.add_port(f"{interface}.{subif}")
+        return self._add_or_reuse(f"{interface}.{subif}")
 
     def find_interface(self, name: str) -> Optional[Interface]:
         for i in self.interfaces:
@@ -152,6 +158,17 @@ def make_storage(case) -> StubStorage:
 
 # ---- registry from the case --------------------------------------------------------------------------
 
+def make_virtual_handler(table, dec):
+    def handler(local, virtual, session):
+        ent = table.get(f"{local.device.fqdn}|{virtual.num}")
+        if ent is None:
+            return
+        for obj, key in ((local, "l"), (virtual, "r"), (session, "s")):
+            for f, v in ent[key].items():
+                setattr(obj, f, dec(v))
+    return handler
+
+
 def make_handler(table, dec, indirect):
     def handler(left, right, session):
         ports = "" if indirect else ",".join(sorted(left.ports))
@@ -176,6 +193,11 @@ def make_registry(case, order, dec) -> MeshRulesRegistry:
     reg = MeshRulesRegistry()
     for idx in order:
         r = case["rules"][idx]
+        if r["kind"] == "virtual":
+            h = make_virtual_handler(r["table"], dec)
+            h.__qualname__ = f"h{idx}"
+            reg.virtual(r["left"], list(r["num"]))(h)
+            continue
         h = make_handler(r["table"], dec, r["kind"] == "indirect")
         h.__qualname__ = f"h{idx}"
         conds = COND[r["cond"]]()
